@@ -6,7 +6,8 @@ TOKENS = ["rgb(", "rgba(", "hsl(", "hsla(", "var(--x)", "(", ")", ",", " ", "%",
           "1e3", "nan", "inf", "deg", "#", "fff", "ggg", "red", "inherit", "é", "\x00"]
 EXTRA_WORDS = ["transparent", "currentcolor", ""]
 NAN, INF = float("nan"), float("inf")
-ELEMS = [0, 1, 255, 256, -1, 0.0, 0.5, 1.0, 1.5, 255.0, 300.0, NAN, INF, -INF, "0", "50%", "abc", "", None, True, False]
+HUGE = 10 ** 400  # an int is a number too, and this one does not fit a float (float(HUGE) raises OverflowError)
+ELEMS = [0, 1, 255, 256, -1, 0.0, 0.5, 1.0, 1.5, 255.0, 300.0, NAN, INF, -INF, "0", "50%", "abc", "", None, True, False, HUGE, -HUGE]
 
 
 def _enc(x):
@@ -17,6 +18,8 @@ def _enc(x):
         return {"f": "inf" if x > 0 else "-inf"}
     if isinstance(x, bool):
         return {"b": x}
+    if isinstance(x, int) and abs(x) >= HUGE:
+        return {"huge": 1 if x > 0 else -1}
     if isinstance(x, float):
         return {"f": repr(x)}
     return x
@@ -26,6 +29,8 @@ def _dec(x):
     if isinstance(x, dict):
         if "b" in x:
             return x["b"]
+        if "huge" in x:
+            return x["huge"] * HUGE
         return float(x["f"])
     return x
 
